@@ -47,6 +47,7 @@ type StoreGenCfg struct {
 	PNested   float64
 	PRead     float64 // token-carrying reader page
 	Readers   int
+	NoPlainObjects bool // UDA payloads: an object-valued property is a nested entity
 }
 
 func poolNames(mk, stem string, n int) []string {
@@ -125,6 +126,9 @@ func (g *G) value(c *StoreGenCfg, depth int) any {
 	case x < 0.95:
 		return g.scalar()
 	default:
+		if c.NoPlainObjects {
+			return g.scalar()
+		}
 		return map[string]any{"k": g.scalar()}
 	}
 }
